@@ -1,7 +1,13 @@
 """Texts for MANIFEST.json (kept next to the contracts so that they are updated together)."""
-SOURCE_COMMITS = ['b5b9d97 fix: treat a position already seen more than twice as a repetition draw']
+SOURCE_COMMITS = [
+    'b5b9d97 fix: treat a position already seen more than twice as a repetition draw',
+    "5410a4c fix: en passant and castling successors no longer inherit the parent's promotion piece",
+    '9df51cc fix: capture-only generation finalises successors like full generation',
+    '2e6d02f fix: a double pawn step answering a double step keeps the Zobrist key consistent',
+    'dd33adc fix: castling squares are tested against the enemy king as well',
+]
 ENGINES = [
-    {'name': 'verus-contracts', 'path': 'check', 'serves_properties': ['C05', 'C06', 'C10', 'C14'],
+    {'name': 'verus-contracts', 'path': 'check', 'serves_properties': ['C01', 'C02', 'C05', 'C06', 'C10', 'C13', 'C14'],
      'kind_free_text': 'Verus 0.2026.09.13: requires/ensures/invariant/decreases inserted into functions copied byte-for-byte from /repo/src on every run; one verifier process per unit'},
 ]
 NOTES = ('Technique family: contract-based deductive verification of the real code. exit 0 = all obligations discharged; '
@@ -10,7 +16,7 @@ NOTES = ('Technique family: contract-based deductive verification of the real co
 
 PENDING = 'check not yet built in this commit (planned, see DESIGN.md section 4); listed here until its check is registered'
 NOT_APPLICABLE = {
-    'C01': PENDING, 'C02': PENDING, 'C04': PENDING, 'C09': PENDING, 'C13': PENDING, 'C15': PENDING,
+    'C04': PENDING, 'C09': PENDING, 'C15': PENDING,
     'C03': 'two threads, an mpsc channel, a polling loop on the wall clock and stdout: no function-level contract states "exactly one bestmove", Kani has no threads, and get_best_move/alpha_beta_search are outside the Verus subset (closures, sort_unstable_by_key, iterator adaptors); the sequential ingredients are covered by C01/C02/C04',
     'C07': 'needs a contract on the recursive search with ghost clock state; the search body is outside the Verus subset and CBMC cannot unroll it; enumerating expiry points is fault injection, a different family',
     'C08': 'liveness/latency of a two-thread polling loop: no contract over one call expresses "eventually prints within the slice"',
@@ -21,11 +27,29 @@ NOT_APPLICABLE = {
     'C18': 'formatted search output under the clock (send_search_info inside the search): outside both verifiers',
 }
 CHECKS = {
+    'C01': {
+        'text': 'Unbounded proof of the statement itself on the real generate_moves: for every legal_position (wf mailbox, one king per side with correct cache, side not to move not in check, no pawns on back ranks, rights only with king and rook at home, en-passant target only behind a just-double-stepped pawn) and AllMoves, the returned vector is (i) sound: every element names a legal_move, (ii) complete: every legal_move occurs, (iii) duplicate-free. legal_move is a rules-level spec (per-kind movement geometry, own king not attacked after the move, FIDE castling conditions incl. squares attacked by the enemy king, en passant only onto the recorded target). Every function on the call chain is under contract: the six piece generators and get_moves (exact target sets), is_check_cords/is_check, can_castle x4, generate_moves_for_piece, promote_pawn, pawn_moves_en_passant, generate_castling_moves, generate_moves.',
+        'design_ref': 'DESIGN.md 4/C01',
+        'note': 'Trusted: Verus+Z3+rustc; extractor (byte-for-byte copies, insert-only annotations, loop-header rewrites R1/R2); axioms: i8 += &i8, i8::abs, derived Clone of BoardState returns an equal value. key/ordering fields are not part of a move. No bound.',
+        'technique': 'Verus contracts on the whole generator chain; top-level ensures = sound + complete + distinct against a rules-level legal_move',
+    },
+    'C02': {
+        'text': 'Unbounded proof: every board returned by generate_moves (both modes) is succ_correct: either succ_ok(parent, s, from, to) -- placement = after_board incl. en-passant victim and promotion piece, side swapped, en-passant target set exactly after a double step, both king squares, all four rights (lost iff king moves / rook leaves corner / something lands on corner), last_move names the move, promotion piece present iff a pawn reaches the last rank (own colour, Q/N/B/R) -- with the mover\'s king not attacked, or castle_succ_ok (king two squares, rook hop, both rights gone, no target, no promotion letter). The precondition says nothing about the parent\'s last_move / pawn_promotion / order_heuristic, so the claim holds along any chain.',
+        'design_ref': 'DESIGN.md 4/C02',
+        'note': 'Trusted as for C01. The printed text (Display for Point, PieceKind::alg, format!) is not under contract: the thorough tier cross-checks it natively against the oracle; legal_position closure under successors is not yet machine-checked (listed).',
+        'technique': 'Verus postcondition succ_ok / castle_succ_ok at every push site of the real successor builders',
+    },
+    'C13': {
+        'text': 'Unbounded proof: with CapturesOnly, generate_moves returns exactly the legal capturing moves (en passant included): sound, complete, duplicate-free against legal_move(.., CapturesOnly), and every successor is succ_correct (promotion on a capture to the last rank, stale en-passant target cleared). The mode is symbolic in every callee, so both modes are proved by the same units.',
+        'design_ref': 'DESIGN.md 4/C13',
+        'note': 'Trusted as for C01. Chains: each successor satisfies succ_ok, whose en-passant clause makes a stale target impossible; the closure of legal_position under successors is not yet machine-checked; quiesce itself (search) is not under contract.',
+        'technique': 'the C01/C02 contracts instantiated with the capture-only mode',
+    },
     'C05': {
-        'text': 'Unbounded proof (work in progress: this commit covers the four BoardState mutators and the hasher getters): each mutator has an exact frame+effect contract in struct-update form and preserves key_ok(b,h) := b.zobrist_key == hash_of(b,h), where hash_of is the from-scratch XOR over the 64 squares, side, four rights and en-passant file, for ANY table contents.',
+        'text': 'Unbounded proof, for ANY table contents: key_ok(b,h) := b.zobrist_key == hash_of(b,h) (from-scratch XOR over 64 squares, side, four rights, en-passant file) is preserved by the four BoardState mutators (exact frame+effect contracts) and established for every successor returned by generate_moves in both modes (direct key writes at the double-step, en-passant-victim and promotion sites are proved locally).',
         'design_ref': 'DESIGN.md 4/C05',
-        'note': 'Trusted: Verus+Z3+rustc, extractor, two arithmetic axioms. Not decided: from_fen builds the key from scratch (string code outside both verifiers); generator and text-applier key updates are added by the movegen/uci bundles.',
-        'technique': 'Verus contracts: key_ok as a representation invariant preserved by every mutator',
+        'note': 'Trusted as for C01. Not decided here: from_fen builds hash_of from scratch (string code outside both verifiers); the text applier make_move is covered by C04 when registered; distinctness of the ChaCha8 constants is not a deductive matter.',
+        'technique': 'Verus: key_ok as a representation invariant preserved by every mutator and every successor builder',
     },
     'C10': {
         'text': 'Unbounded proof for the table operations: new/clear give the empty table, add_board_to_draw_table changes exactly one count by one (frame over all other keys), is_threefold_repetition leaves the table unchanged and answers exactly "already seen at least twice". Over vstd\'s HashMap model.',
